@@ -328,7 +328,13 @@ pub fn c05b_probes(ctx: &Ctx) -> Vec<Probe> {
     let mut out = vec![];
     let opts = RenderOpts { sv: "sylvia".into(), glue: false };
     let n = if ctx.quick() { 10 } else { 60 };
-    for b in overlap_bases(ctx.seed ^ 0x05b, n, false) {
+    // half of the bases prefer a collision between two interfaces, half between any two parts
+    let mut bases = overlap_bases(ctx.seed ^ 0x05b, n / 2, false);
+    bases.extend(overlap_bases(ctx.seed ^ 0x15b, n - n / 2, true).into_iter().map(|mut b| {
+        b.index += 1000;
+        b
+    }));
+    for b in bases {
         let (i, cls, pair, kind) = (b.index, b.cls, b.pair, b.kind);
         let (name_a, name_b) = (&b.name_a, &b.name_b);
         out.push(Probe {
